@@ -10,7 +10,7 @@ MODULE = "Poupool.Properties.C06"
 def run(chk):
     from vlib import lean as _lean
     ac.run_actor_property(chk, MODULE, THEOREMS, monitor_pids=["C06"], extra=globals().get("extra"))
-    ac.dispatch_facts(chk, ['C14_fact_methods', 'C14_fact_modes', 'C14_fact_heating_setpoint', 'C14_fact_heating_min_temp', 'C14_fact_heating_start_hour'])
+    ac.dispatch_facts(chk, ['C14_fact_routing', 'C14_fact_modes', 'C14_fact_heating_setpoint', 'C14_fact_heating_min_temp', 'C14_fact_heating_start_hour'])
     from checks import altcfg as _alt
     _alt.binding(chk, ['heating'])
     _alt.explore(chk, [chk.pid])
